@@ -502,12 +502,12 @@ def step (s : BState) : Call → BState
       { s4 with doc := s4.doc.modifyTempl t (fun T => { T with edges := T.edges ++ [mkEdge T.edges fs ts control fr g a p] }),
                 currentEdge := some (t, idx) }.pushFrame fr
     | some _, some _, none => s.pushNewFrame
-    | _, _, _ => s.error.pushNewFrame
+    | _, _, _ => { s.error with currentEdge := none }.pushNewFrame   -- the labels of this edge must not land on the previous one
   | .procEdgeEnd => s.popFrame
   | .procSelect name =>
-    s.addSelectSymbol name (match s.currentEdge with
-      | some (t, i) => ((s.doc.templates[t]?).bind (·.edges[i]?)).map (·.select)
-      | none => none)
+    match s.currentEdge with
+    | none => s.error                                               -- "Must be declared inside of an edge"; the type stays pushed
+    | some (t, i) => s.addSelectSymbol name (((s.doc.templates[t]?).bind (·.edges[i]?)).map (·.select))
   | .procGuard => s.setEdge (fun ed e => { ed with guard := e })
   | .procSync =>
     match s.currentEdge with
